@@ -61,6 +61,8 @@ type LightTiny<const M: u16> = GenericLightGraph<SimpleTermIndex<TinyIdx<M>>>;
 #[derive(Clone, Copy, Debug, PartialEq, Eq)]
 enum SrcKind {
     Iter,
+    /// a Source that hands several items to the consumer within one try_for_some_item step
+    Batch,
     NtParser,
     TurtleParser,
     VecGraph,
@@ -169,6 +171,8 @@ enum SinkFault {
 }
 
 struct Setup {
+    /// batch sizes of the Batch source
+    batch: Vec<usize>,
     src: SrcKind,
     items: Vec<MTriple>,
     ops: Vec<(OpKind, u64, u8)>,
@@ -255,6 +259,49 @@ impl Iterator for FaultyIter {
     }
     fn size_hint(&self) -> (usize, Option<usize>) {
         (0, None)
+    }
+}
+
+/// A legal `Source` that delivers its items in batches (like the Turtle parser does for
+/// `s p o1, o2, o3 .`): several calls of the consumer per step, and a failure that may strike
+/// in the middle of a batch, after some items of that step were already delivered.
+struct BatchSource {
+    items: Vec<STriple>,
+    pos: usize,
+    sizes: Vec<usize>,
+    step: usize,
+    fail_at: Option<usize>,
+    pulls: Rc<Cell<usize>>,
+}
+
+impl sophia_api::source::Source for BatchSource {
+    type Item<'x> = STriple;
+    type Error = SimFault;
+
+    fn try_for_some_item<E, F>(&mut self, mut f: F) -> sophia_api::source::StreamResult<bool, SimFault, E>
+    where
+        E: std::error::Error + Send + Sync + 'static,
+        F: FnMut(Self::Item<'_>) -> Result<(), E>,
+    {
+        self.pulls.set(self.pulls.get() + 1);
+        if self.pos >= self.items.len() && self.fail_at != Some(self.pos) {
+            return Ok(false);
+        }
+        let n = if self.sizes.is_empty() { 1 } else { self.sizes[self.step % self.sizes.len()].max(1) };
+        self.step += 1;
+        for _ in 0..n {
+            if self.fail_at == Some(self.pos) {
+                self.fail_at = None;
+                return Err(StreamError::SourceError(SimFault { id: SRC_ID }));
+            }
+            if self.pos >= self.items.len() {
+                break;
+            }
+            let it = self.items[self.pos].clone();
+            self.pos += 1;
+            f(it).map_err(StreamError::SinkError)?;
+        }
+        Ok(true)
     }
 }
 
@@ -676,6 +723,24 @@ fn execute(setup: &Setup, sf: SrcFault, kf: SinkFault) -> Outcome {
                     with_chain(src, &ops, drive);
                 }
             }
+            SrcKind::Batch => {
+                let src = BatchSource {
+                    items: simple(&setup.items),
+                    pos: 0,
+                    sizes: setup.batch.clone(),
+                    step: 0,
+                    fail_at: match sf {
+                        SrcFault::IterErr(k) => Some(k),
+                        _ => None,
+                    },
+                    pulls: pulls.clone(),
+                };
+                if setup.consumer.needs_iter() {
+                    with_chain_iter(src, &ops, drive);
+                } else {
+                    with_chain(src, &ops, drive);
+                }
+            }
             SrcKind::NtParser | SrcKind::TurtleParser => {
                 let broken = match sf {
                     SrcFault::Syntax(k) => Some(k),
@@ -1002,8 +1067,10 @@ fn check(case: &Case<'_>, twin: &Outcome, out: &Outcome) -> Verdict {
     }
 
     // ===== 3. pull count and closure call counts (streaming consumers on the iterator source)
-    if setup.src == SrcKind::Iter && !c.buffering() {
-        let want_pulls = if let Some(j) = sink_fires_at {
+    if matches!(setup.src, SrcKind::Iter | SrcKind::Batch) && !c.buffering() {
+        let want_pulls = if setup.src == SrcKind::Batch {
+            None
+        } else if let Some(j) = sink_fires_at {
             Some(src_pos(&expected[j]) + 1)
         } else if src_fires && !write_fault {
             Some(k_src + 1)
@@ -1023,7 +1090,7 @@ fn check(case: &Case<'_>, twin: &Outcome, out: &Outcome) -> Verdict {
             );
         }
         ensure!(
-            out.pulls <= n + 3,
+            out.pulls <= n + 3 || setup.src == SrcKind::Batch,
             oracle("pull_count"),
             "{d}: the source iterator was pulled {} times for {n} items",
             out.pulls
@@ -1260,16 +1327,18 @@ fn run_c15(ctx: &mut Ctx) -> Verdict {
     let src = [
         SrcKind::Iter,
         SrcKind::Iter,
+        SrcKind::Batch,
+        SrcKind::Batch,
         SrcKind::Iter,
         SrcKind::NtParser,
         SrcKind::TurtleParser,
         SrcKind::VecGraph,
         SrcKind::FastGraph,
-    ][ctx.tape.below(7)];
-    let max_depth = if src == SrcKind::Iter { 3 } else { 1 };
+    ][ctx.tape.below(9)];
+    let max_depth = if matches!(src, SrcKind::Iter | SrcKind::Batch) { 3 } else { 1 };
     let depth = ctx.tape.below(max_depth + 1);
     let mut consumer = CONSUMERS[ctx.tape.below(CONSUMERS.len())];
-    if consumer.needs_iter() && src != SrcKind::Iter {
+    if consumer.needs_iter() && !matches!(src, SrcKind::Iter | SrcKind::Batch) {
         consumer = Consumer::TryForEach;
     }
     let n = ctx.tape.below(9);
@@ -1323,7 +1392,9 @@ fn run_c15(ctx: &mut Ctx) -> Verdict {
         }
     }
     let noise = Noise::draw(&mut ctx.tape, true);
+    let batch: Vec<usize> = (0..ctx.tape.range(1, 3)).map(|_| ctx.tape.range(1, 4)).collect();
     let setup = Setup {
+        batch,
         src,
         items,
         ops,
@@ -1347,6 +1418,7 @@ fn run_c15(ctx: &mut Ctx) -> Verdict {
     ctx.sample(|| head.clone());
     ctx.probe(match setup.src {
         SrcKind::Iter => "source_iterator",
+        SrcKind::Batch => "source_batching",
         SrcKind::NtParser => "source_nt_parser",
         SrcKind::TurtleParser => "source_turtle_parser",
         SrcKind::VecGraph => "source_vec_graph",
@@ -1362,6 +1434,7 @@ fn run_c15(ctx: &mut Ctx) -> Verdict {
     // ---- delivery order
     let delivery: Vec<MTriple> = if setup.src == SrcKind::FastGraph {
         let probe = Setup {
+            batch: vec![],
             src: setup.src,
             items: setup.items.clone(),
             ops: setup.ops.clone(),
@@ -1399,7 +1472,7 @@ fn run_c15(ctx: &mut Ctx) -> Verdict {
     // ---- every single source fault
     let mut src_faults: Vec<SrcFault> = vec![];
     match setup.src {
-        SrcKind::Iter => {
+        SrcKind::Iter | SrcKind::Batch => {
             for k in 0..=n {
                 src_faults.push(SrcFault::IterErr(k));
             }
@@ -1546,6 +1619,7 @@ fn main() {
         ],
         stub_components: &[
             "FaultyIter (iterator source failing at item k, counts pulls)",
+            "BatchSource (a legal Source delivering several items per step, failing mid-batch)",
             "SimReader / SimWriter",
             "consumer closures failing at invocation j",
             "TinyIdx<5|9|14> (Index impl with small MAX)",
